@@ -751,10 +751,21 @@ func stressTwin(r *hx.Run, rng *hx.Rng) bool {
 // emitSparse judges every log of a round with the Go oracle but prints only the first three and the failing ones
 // (rounds with hundreds of subscriptions).
 func emitSparse(r *hx.Run, kind, histLine string, rd *round, final string) {
+	emitSparseKind(r, kind, histLine, rd, "vsub", final)
+}
+
+// emitSparseKind: lineKind = vsub (histLine = the value history) or ssub (the first subscription is the reference).
+func emitSparseKind(r *hx.Run, kind, histLine string, rd *round, lineKind, final string) {
 	curCtx = &judgeCtx{kind: kind}
-	r.Line(histLine, judgeLogLine(r, histLine))
+	if histLine != "" {
+		r.Line(histLine, judgeLogLine(r, histLine))
+	}
 	for i, s := range rd.subs {
-		line := s.line("vsub", final)
+		lk := lineKind
+		if lk == "ssub" && i == 0 {
+			lk = "sref"
+		}
+		line := s.line(lk, final)
 		if d, _ := s.direct.Load().(string); d != "" {
 			fail(r, kind, d, "observed from inside the callback", line)
 		}
@@ -1027,6 +1038,8 @@ func stressOne(r *hx.Run, kind string, seed uint64) bool {
 		return stressWalk(r, rng)
 	case "twin-var":
 		return stressTwin(r, rng)
+	case "barrier-var", "barrier-set", "barrier-event":
+		return stressBarrier(r, rng, kind)
 	case "crowd-var", "crowd-set", "crowd-event", "crowd-dset":
 		crowd = rng.Range(40, 80)
 		defer func() { crowd = 0 }()
@@ -1068,7 +1081,8 @@ func runStressLines(r *hx.Run, op string) {
 func runStress(r *hx.Run) {
 	runDirPart(r)
 	rounds := 4000 * r.Scale
-	kinds := []string{"var", "set", "dset", "var", "crowd-var", "set", "event", "dset", "crowd-set", "var", "set", "crowd-event",
+	// the barrier rounds come first: their failing inputs are on file before a broken list can crash or hang a later round
+	kinds := []string{"barrier-var", "barrier-set", "barrier-event", "var", "set", "dset", "var", "crowd-var", "set", "event", "dset", "crowd-set", "var", "set", "crowd-event",
 		"var", "set", "dset", "crowd-var", "event", "set", "crowd-dset", "var", "varx", "varx", "varx", "varx", "varx", "walk-var", "twin-var"}
 	for i := 0; i < rounds; i++ {
 		seed := r.Rng.U64()
